@@ -1,6 +1,7 @@
 (* C06 - no memory-safety violation, crash or hang on arbitrary input: the proved part is the bounds
    logic of two parsers; the run-time behaviour of the C code is observed under sanitizers *)
 From E2V Require Import Parsers.DirWalk Parsers.DirWalkProofs Parsers.EaValue.
+From E2V Require Import Robust.Restart Robust.RestartProofs Robust.ItableLen Robust.ItableLenProofs.
 Local Open Scope N_scope.
 
 (* the directory record walk never reads outside its buffer and always ends, whatever the bytes are *)
@@ -52,6 +53,39 @@ Theorem ea_value_sum_only_refuted : exists bs offs size,
   bs <= 65536 /\ offs < 65536 /\ size < W32 /\ ea_value_ok_sum_only bs offs size = true /\ bs < offs + size.
 Proof. exists 4096, 4092, 4294965248. vm_compute. repeat split; reflexivity || discriminate. Qed.
 Print Assumptions ea_value_sum_only_refuted.
+
+(* e2fsck's restart protocol for missing inode tables ends after at most one restart: a read-only run does not relocate
+   (and leaves the device as it is), a writing run stores the new locations before it starts again ... *)
+Theorem restart_protocol_terminates : forall ro d fuel, (2 <= fuel)%nat ->
+  exists n d', iterate (run_new ro) fuel d = Some (n, d') /\ (n <= 1)%nat /\
+               (ro = true -> d' = d /\ n = 0%nat) /\ (ro = false -> d' = []).
+Proof. exact new_terminates. Qed.
+Print Assumptions restart_protocol_terminates.
+
+(* ... the protocol as it was does not end when the run is read-only and a table is missing: whatever the fuel (this is
+   the thorough-tier finding 'e2fsck -n relocates a missing inode table forever', repaired in the repository) *)
+Theorem restart_protocol_old_refuted : forall fuel d, d <> [] -> iterate (run_old true) fuel d = None.
+Proof. exact old_readonly_diverges. Qed.
+Print Assumptions restart_protocol_old_refuted.
+
+(* e2image never takes more blocks of an inode table than the table has, whatever bg_itable_unused claims; on sane
+   descriptors the repaired arithmetic equals the unsigned subtraction of the code as it was ... *)
+Theorem itable_len_bounded : forall n unused ipb, itable_len_new n unused ipb <= n.
+Proof. exact new_bounded. Qed.
+Print Assumptions itable_len_bounded.
+
+Theorem itable_len_agrees_when_sane : forall n unused ipb, n < UINT32 -> unused / ipb <= n ->
+  itable_len_old n unused ipb = itable_len_new n unused ipb.
+Proof. exact agree_when_sane. Qed.
+Print Assumptions itable_len_agrees_when_sane.
+
+(* ... and the unsigned subtraction alone wraps: 512-inode groups of 4 inodes per block, bg_itable_unused = 65535 *)
+Theorem itable_len_old_refuted : exists n unused ipb, n < UINT32 /\ unused < 65536 /\ n < itable_len_old n unused ipb.
+Proof. exists 128, 65535, 4. vm_compute. repeat split; reflexivity. Qed.
+Print Assumptions itable_len_old_refuted.
+
+Example restart_example : restarts true false 3 = Some 1%nat /\ restarts true true 3 = Some 0%nat /\ restarts false true 3 = None.
+Proof. vm_compute. repeat split; reflexivity. Qed.
 
 Example walk_example : dir_block_walk ([2;0;0;0; 12;0; 1;2; 46;0;0;0] ++ [2;0;0;0; 20;0; 2;2; 46;46;0;0] ++ repeat 0 8) 32 = WOk 2.
 Proof. vm_compute. reflexivity. Qed.
